@@ -157,17 +157,22 @@ def check(cases, res, stratum):
             res.failures[-1]['no_input'] = True
 
 def unary(rng, res, tier, shard, nshards):
-    fx = lib.impl(); import numpy as np
     nwmax = 4 if tier == 'quick' else 7
     fmts = [(s, nw, nf) for s in (True, False) for nw in range(2, nwmax + 1) for nf in range(0, nw - (1 if s else 0) + 1)]
     for idx, (s, nw, nf) in enumerate(fmts):
         if idx % nshards != shard: continue
         lo, hi = S.fmt_bounds(s, nw)
         for c in range(lo, hi + 1):
-            x = A.mk(fx, np, s, nw, nf, c, rounding=rng.choice(RMODES), overflow=rng.choice(OMODES))
+            unary_one(res, s, nw, nf, c, rng.choice(RMODES), rng.choice(OMODES))
+
+def unary_one(res, s, nw, nf, c, r, o, only=None):
+            fx = lib.impl(); import numpy as np
+            lo, hi = S.fmt_bounds(s, nw)
+            x = A.mk(fx, np, s, nw, nf, c, rounding=r, overflow=o)
             for name, f, g in (('neg', lambda t: -t, lambda v: -v), ('pos', lambda t: +t, lambda v: v), ('abs', lambda t: abs(t), lambda v: abs(v))):
+                if only is not None and name != only: continue
                 want = g(c)
-                case = {'unary': name, 'x': [s, nw, nf], 'cx': c}
+                case = {'unary': name, 'x': [s, nw, nf], 'cx': c, 'r': r, 'o': o}
                 res.count('U:unary', key=(name, s, nw, nf, c), nontrivial=c != 0)
                 if not (lo <= want <= hi): continue
                 try:
@@ -205,6 +210,7 @@ def classify(fl):
 def replay(payload):
     res = Result(); c = payload['case']
     if 'unary' in c:
-        res.notes.append('unary case: rerun ./check C08'); return {'holds': True, 'failures': []}
+        unary_one(res, c['x'][0], c['x'][1], c['x'][2], c['cx'], c.get('r', 'trunc'), c.get('o', 'saturate'), only=c['unary'])
+        return {'holds': not res.failures, 'failures': res.failures}
     check([c], res, 'replay')
     return {'holds': not res.failures, 'failures': res.failures}
